@@ -6,6 +6,7 @@ CONSTANTS
   Inject = "base"
   Handback = "per_run"
   NextRun = "plain"
+  ImportThread = "inline"
   defaultInitValue = defaultInitValue
 INVARIANT ExcIsTimeout
 INVARIANT ExcStable
